@@ -1082,11 +1082,17 @@ def plan_correspondence(sc, cfg, case, a, n_updates, real, state):
     zp = a["zip"] != "a"
     ro = ordered_real(real["events"], zp)
     mo = ordered_model(m["plan"], zp)
-    if sc.kind == "lbfgs_cap" and budget_spent(state):
-        # (see rerun_case: the checkpoint found already holds every iteration; no further checkpoint write)
-        first = next((i for i, op in enumerate(mo) if op[:2] == ["put", "internal"]), None)
-        if first is not None and mo.count(["put", "internal", True]) > ro.count(["put", "internal", True]):
-            mo = mo[:first] + mo[first + 1:]
+    if sc.kind == "lbfgs_cap":
+        # the iteration budget is a whole number of checkpoint intervals: the last checkpoint already holds every
+        # iteration (of this run, or - see rerun_case - of the run that was killed) and the search returns without a
+        # further scipy call, hence without the checkpoint write of the model's last round (listed assumption)
+        mark = next((i for i, op in enumerate(mo) if op[:2] == ["put", "marker"]), len(mo))
+        ck = [i for i, op in enumerate(mo[:mark]) if op[:2] == ["put", "internal"]]
+        n_real = sum(1 for op in ro[: next((i for i, op in enumerate(ro) if op[:2] == ["put", "marker"]), len(ro))]
+                     if op[:2] == ["put", "internal"])
+        if ck and len(ck) == n_real + 1:
+            ctx.hit("plan:capped-last-round-without-checkpoint")
+            mo = mo[: ck[-1]] + mo[ck[-1] + 1:]
     if ro != mo:
         k = next((i for i, (x, y) in enumerate(zip(ro, mo)) if x != y), min(len(ro), len(mo)))
         ctx.disagree("C06.write-order", case, {"at": k, "real": ro[max(0, k - 2): k + 3], "n": len(ro)},
